@@ -12,7 +12,7 @@ import (
 
 func init() {
 	register("C01",
-		"Decides structural necessary conditions of the FIFO contract of UnsafeLinkBuffer, not the byte values: (R1) in every size-taking Reader method nothing is mutated before the Len() < n test has failed (a short read consumes nothing); (R2) every method that advances a node's read offset first subtracts from the atomic length through recalLen with a negated count, and every method that makes bytes readable (Flush, bookAck, WriteBuffer) adds through recalLen; (R3) the length has a single writer set (recalLen, Close, the fresh Slice reader, the donor reset) and the Peek cache is invalidated inside recalLen on every negative delta; (R4) every nil-returning path of MallocAck stores the malloc offset of the node the write cursor ends on (bytes discarded by MallocAck(0) do not become readable); (R5) a node's Malloc is reached only after growth() (which leaves on a managed node with room, or a fresh one) or from book(); (R6) the reader side never reads the writer's cursor (it stops at flush), and Append links the donor chain from the donor's read cursor; (R7, shared with C02) Slice nodes pin the root block by its reference count; (R8) every site that makes bytes pending adds the same count to mallocSize. Not decided: which bytes are returned, order, exactly-once, Len/MallocLen values, node-boundary arithmetic, Append/Slice content - value properties of a linked structure that need shape analysis plus arithmetic.",
+		"Decides structural necessary conditions of the FIFO contract of UnsafeLinkBuffer, not the byte values: (R1) in every size-taking Reader method nothing is mutated before the Len() < n test has failed (a short read consumes nothing); (R2) every method that advances a node's read offset first subtracts from the atomic length through recalLen with a negated count, and every method that makes bytes readable (Flush, bookAck, WriteBuffer) adds through recalLen; (R3) the length has a single writer set (recalLen, Close, the fresh Slice reader, the donor reset) and the Peek cache is invalidated inside recalLen on every negative delta; (R4) every nil-returning path of MallocAck stores the malloc offset of the node the write cursor ends on (bytes discarded by MallocAck(0) do not become readable); (R5) a node's Malloc is reached only after growth() (which leaves on a managed node with room, or a fresh one) or from book(); (R6) the reader side never reads the writer's cursor (it stops at flush), and Append links the donor chain from the donor's read cursor; (R7, shared with C02) Slice nodes pin the root block by its reference count; (R8) every site that makes bytes pending adds the same count to mallocSize; (R9) Slice refers and links every node it marks. Not decided: which bytes are returned, order, exactly-once, Len/MallocLen values, node-boundary arithmetic, Append/Slice content - value properties of a linked structure that need shape analysis plus arithmetic.",
 		[]string{"single reader / single writer per buffer (API contract)"},
 		func(r *Run) {
 			cfgs := []string{"linux"}
@@ -662,6 +662,37 @@ func c01(r *Run) {
 		}
 		if nProd < 2 {
 			r.absentf(" C01: only %d sites that make bytes pending", nProd)
+		}
+	}
+	// ---- R9 Slice links every node it walks over ----------------------------------------------------------
+	{
+		sl := bufMethod(w, "Slice")
+		setFlag := w.MustFn("(*linkBufferNode).setFlag")
+		refer := w.MustFn("(*linkBufferNode).Refer")
+		exposedK := w.ConstInt("flagReadExposed")
+		n := 0
+		for _, m := range findIns(sl, func(i ssa.Instruction) bool {
+			if !isCall(i, setFlag) {
+				return false
+			}
+			k, ok := constInt(callCommon(i).Args[1])
+			return ok && k == exposedK
+		}) {
+			n++
+			r.mustPass("C01.R9:slice-refers-every-node-it-takes", "in Slice every node whose bytes belong to the slice (it is marked exposed) is also referred and linked into the new reader before Slice moves on: a node that is skipped leaves the reader shorter than its declared length", sl, m, []Start{After(m)}, func(i ssa.Instruction) bool { return isCall(i, refer) }, nil, nil, "Refer() on every path after the mark")
+		}
+		if n < 3 {
+			r.absentf(" C01: Slice marks only %d nodes", n)
+		}
+		// ... and what Refer returns is linked: stored into the new reader's chain
+		for _, c := range findIns(sl, func(i ssa.Instruction) bool { return isCall(i, refer) }) {
+			linked := false
+			for _, ref := range *c.(*ssa.Call).Referrers() {
+				if st, ok := ref.(*ssa.Store); ok && st.Val == c.(ssa.Value) {
+					linked = true
+				}
+			}
+			r.ob("C01.R9:referred-node-is-linked", "the node Refer returns is stored into the new reader's chain (head / flush.next)", sl, c, linked, "result of Refer is stored", true)
 		}
 	}
 	// R7: a block that is still being read must not be recycled under the reader (borrowed reference-count rules)
